@@ -88,7 +88,32 @@ def run_jobs(jobs, wd, tag, need_io=False, timeout=3000):
     args = ["-jobs", jp, "-obs", op]
     if need_io:
         args += ["-io", ip]
-    p = run_bin("walreplay", args, timeout=timeout)
+    p = run_bin("walreplay", args, timeout=timeout, ok_codes=tuple(range(0, 256)))
+    if p.returncode != 0:
+        # the driver process died. If it was taken down by a panic inside raft-wal on one of the library's own goroutines
+        # (the background rotation - nothing the driver can recover), that is an observation of the run in progress, not a
+        # tool failure: the trace written so far is kept and ends with a panic event. Anything else is inconclusive.
+        err = p.stderr or ""
+        i = min([x for x in (err.find("panic:"), err.find("fatal error:")) if x >= 0] or [-1])
+        head = err[i:i + 6000] if i >= 0 else ""
+        frames = [l for l in head.splitlines() if l and not l.startswith(("\t", " ", "goroutine ", "panic:", "fatal error:", "[signal"))]
+        first_lib = next((l for l in frames if "hashicorp/raft-wal" in l or "verif/harness" in l), "")
+        if i < 0 or "hashicorp/raft-wal" not in first_lib or not os.path.exists(op):
+            raise Inconclusive("walreplay exited %d: %s" % (p.returncode, (p.stderr or p.stdout)[-3000:]))
+        good = []
+        for l in open(op, errors="replace").read().split("\n"):
+            try:
+                json.loads(l)
+                good.append(l)
+            except Exception:
+                pass
+        msg = head.splitlines()[0][:300]
+        good.append(json.dumps({"ev": "panic", "where": "library goroutine (the process died)", "msg": msg,
+                                "metric": "invalid metric name" in msg, "stack": head[:1500]}))
+        open(op, "w").write("\n".join(good) + "\n")
+        log("walreplay was taken down by a panic on a library goroutine: %s" % msg)
+        return op, (ip if need_io and os.path.exists(ip) else None), {"events": len(good), "forks": 0, "runs": sum(1 for l in good if l.startswith('{"ev":"reset"')),
+                                                                      "jobs": len(jobs), "died": True}
     stats = json.loads(p.stdout.strip().splitlines()[-1])
     return op, (ip if need_io else None), stats
 
